@@ -743,7 +743,16 @@ func c10R3(c *Ctx, r *Report) {
 			problems = append(problems, "the wires are concatenated before being sorted")
 		}
 		eqs := callsIn(fn, "bytes.Equal")
-		if len(eqs) != 1 {
+		if compact := compactByBytesEqual(fn); len(eqs) == 0 && compact != nil {
+			// wires = slices.CompactFunc(wires, bytes.Equal): the library's removal of equal neighbours, between the
+			// sort and the concatenation, and what is concatenated is what it returned
+			if !precedes(sorts[0].(ssa.Instruction), compact) {
+				problems = append(problems, "equal neighbours are removed before the wires are sorted")
+			}
+			if !precedes(compact, appendCall) || !sliceOf(appendCall.Call.Args[len(appendCall.Call.Args)-1])[compact] {
+				problems = append(problems, "what is concatenated is not what the removal of equal neighbours returned")
+			}
+		} else if len(eqs) != 1 {
 			problems = append(problems, "no bytes.Equal duplicate test")
 		} else {
 			eq := eqs[0].(*ssa.Call)
@@ -1000,4 +1009,26 @@ func c10R4(c *Ctx, r *Report) {
 		}
 	}
 	r.check(len(problems) == 0, "C10.R4.sign-fill", "RRSIG.Sign", c.pos(fn.Pos()), "six fields from the first record", "%s", strings.Join(problems, "; "))
+}
+
+// compactByBytesEqual: the call slices.CompactFunc(x, bytes.Equal) in fn, nil when there is none.
+func compactByBytesEqual(fn *ssa.Function) *ssa.Call {
+	var out *ssa.Call
+	allInstrs(fn, func(in ssa.Instruction) {
+		call, ok := in.(*ssa.Call)
+		if !ok || calleeNameSSA(&call.Call) != "slices.CompactFunc" || len(call.Call.Args) != 2 {
+			return
+		}
+		eq := call.Call.Args[1]
+		if mc, isMC := eq.(*ssa.MakeClosure); isMC {
+			eq = mc.Fn
+		}
+		if ct, isCT := eq.(*ssa.ChangeType); isCT {
+			eq = ct.X
+		}
+		if f, isF := eq.(*ssa.Function); isF && f.Object() != nil && objName(f.Object()) == "bytes.Equal" {
+			out = call
+		}
+	})
+	return out
 }
